@@ -203,6 +203,7 @@ func runShard(bin string, p *propCfg, tier string, seed int64, shard, nshards in
 		of.Close()
 
 		done := false
+		var lastStats *stats // cumulative: the last record of this process counts
 		last := rec{I: -1}
 		lf, err := os.Open(logPath)
 		if err == nil {
@@ -224,12 +225,15 @@ func runShard(bin string, p *propCfg, tier string, seed int64, shard, nshards in
 				case "viol":
 					res.viols = append(res.viols, violation{Key: r.Key, Label: r.Label, Index: r.I, Msg: r.Msg, Detail: r.Detail})
 				case "stats":
-					res.stats = append(res.stats, r.Stats)
+					lastStats = r.Stats
 				case "done":
 					done = true
 				}
 			}
 			lf.Close()
+		}
+		if lastStats != nil {
+			res.stats = append(res.stats, lastStats)
 		}
 		if done {
 			if !p.KeepLogs && os.Getenv("VERIF_KEEP_LOGS") == "" {
